@@ -34,6 +34,33 @@ class C18(RecorderProp):
         case['tz'] = rng.choice(['JST-9', 'UTC', 'EST5EDT', 'IST-5:30', 'JST-9'])
         return case
 
+    NESTED = {'quick': 150, 'thorough': 1500}
+
+    def generate(self, rng, tier):
+        """+ histories in which an operation calls another decorated operation of the same recorder and carries on whatever
+        that call does (known finding K6: it raises the documented AssertionError; not modelled) - the metadata of the
+        enclosing operation's recording must tell the truth about the ENCLOSING run all the same"""
+        cases = super(C18, self).generate(rng, tier)
+        tries = 0
+        made = 0
+        while made < self.NESTED[tier] and tries < 20 * self.NESTED[tier]:
+            tries += 1
+            case = self.gen_one(rng, tier)
+            ops = [r for r in case['runs'] if r['run'] == 'op' and r.get('enabled')]
+            if not ops:
+                continue
+            run = rng.choice(ops)
+            inner_cls = rng.choice(sorted(case['classes']))
+            inner = [{'op': 'ret', 'e': {'c': {'i': '1'}}}] if rng.random() < 0.5 else [{'op': 'raise', 't': 'ValueError'}]
+            pos = rng.randint(0, max(0, len(run['script']) - 1))
+            run['script'] = run['script'][:pos] + [{'op': 'nestedop', 'cls': inner_cls, 'x': 'inner', 'script': inner}] + run['script'][pos:]
+            case['model'] = False
+            case['nested_operation'] = True
+            case.pop('default_lookup', None)
+            cases.append(case)
+            made += 1
+        return cases
+
     def oracle(self, case, impl):
         fails = []
         complete = {}
